@@ -393,7 +393,10 @@ Fits(t, m, v) ==
                             /\ \A j \in 1..Len(v.items) : Fits(t.elem, m, v.items[j])
     [] t.k \in {"struct", "union"} ->
          \A j \in 1..Len(t.fields) :
-            IF t.fields[j].bits > 0 THEN TRUE ELSE Fits(t.fields[j].type, m, v.vals[j])
+            \* a bit-field holds the integers of its width: [0, 2^bits) whatever the storage type (C06; finding F36)
+            IF t.fields[j].bits > 0
+            THEN FitsBits(IF t.fields[j].type.k = "enum" THEN v.vals[j].v ELSE v.vals[j], t.fields[j].bits)
+            ELSE Fits(t.fields[j].type, m, v.vals[j])
     [] OTHER -> TRUE
 
 \* does t contain a to-end-of-stream array?  (its extent is the end of input by definition)
